@@ -125,7 +125,8 @@ class Event(object):
         self.callbacks.remove(cb)
 
     def got_update(self, data):
-        for cb in self.callbacks:
+        # (a listener may add or remove listeners, so use a copy)
+        for cb in list(self.callbacks):
             try:
                 cb(data)
             except Exception as e:
